@@ -1122,7 +1122,12 @@ impl<'a> Walk<'a> {
             hir::Expr::EFloat64 { .. } => self.bad("EFloat64"),
             hir::Expr::EConstr { .. } => self.bad("EConstr"),
             hir::Expr::EStructLiteral { .. } => self.bad("EStructLiteral"),
-            hir::Expr::EArray { .. } => self.bad("EArray"),
+            hir::Expr::EArray { items } => {
+                self.kind("array");
+                let mut v = vec![n(i)];
+                v.extend(items.iter().map(|e| self.expr(*e)));
+                tagged("array", v)
+            }
             hir::Expr::EGo { .. } => self.bad("EGo"),
             hir::Expr::ETuple { items } => {
                 self.kind("tuple");
@@ -1180,7 +1185,32 @@ impl<'a> Walk<'a> {
             hir::Expr::ECall { func, args } => {
                 self.kind("call");
                 match self.table.expr(func) {
-                    hir::Expr::EStaticMember { .. } => return self.bad("call-of-EStaticMember"),
+                    hir::Expr::EStaticMember { path, .. } => {
+                        // `T::m(args)` with `T` a type of this package (not a trait, not qualified): the inherent branch
+                        let ns = path.namespace_segments();
+                        let Some(member) = path.last_ident().cloned() else { return self.bad("call-of-EStaticMember") };
+                        if path.len() != 2 || ns.len() != 1 {
+                            return self.bad("call-of-EStaticMember-qualified");
+                        }
+                        let tn = ns[0].seg().clone();
+                        if tn.contains("::") || self.genv.current().trait_env.trait_defs.contains_key(&tn) {
+                            return self.bad("call-of-EStaticMember-trait");
+                        }
+                        self.kind("call_static_inherent");
+                        self.ids.push(func);
+                        let mut v = vec![n(i), n(func.idx), a(&tn), a(&member)];
+                        v.extend(args.iter().map(|e| self.expr(*e)));
+                        return tagged("scall", v);
+                    }
+                    hir::Expr::EField { expr: recv, field } => {
+                        self.kind("call_method");
+                        self.ids.push(func);
+                        let recv = *recv;
+                        let name = field.to_ident_name();
+                        let mut v = vec![n(i), n(func.idx), self.expr(recv), a(&name)];
+                        v.extend(args.iter().map(|e| self.expr(*e)));
+                        return tagged("mcall", v);
+                    }
                     hir::Expr::ENameRef { res: hir::NameRef::Def(_), hint, .. } => {
                         if let Some(Ty::TFunc { params, .. }) = self.genv.current().get_type_of_function(hint) {
                             let mut has_param = false;
@@ -1244,6 +1274,20 @@ impl<'a> Walk<'a> {
             }
         }
     }
+}
+
+/// `trait_env.inherent_impls`, one row per method, in the map's own order (`lookup_inherent_method` reads it by key)
+fn inherent_s(genv: &PackageTypeEnv) -> S {
+    let mut rows = Vec::new();
+    for (key, def) in genv.current().trait_env.inherent_impls.iter() {
+        for (m, sch) in def.methods.iter() {
+            rows.push(match key {
+                compiler::env::InherentImplKey::Exact(t) => tagged("exact", vec![dump::ty(t), a(m), dump::ty(&sch.ty)]),
+                compiler::env::InherentImplKey::Constr(c) => tagged("constr", vec![a(c), a(m), dump::ty(&sch.ty)]),
+            });
+        }
+    }
+    tagged("inherent", rows)
 }
 
 fn structs_s(genv: &PackageTypeEnv) -> S {
@@ -1412,6 +1456,12 @@ fn observe(col: &Rc<RefCell<Vec<FnRec>>>, genv: &PackageTypeEnv, typer: &mut Typ
                 tagged("ret", vec![ret]),
                 tagged("funs", funs),
                 tagged("env", vec![structs_s(genv), tagged("impls", vec![])]),
+                inherent_s(genv),
+                tagged("enums", {
+                    let mut e: Vec<String> = genv.current().enums().keys().map(|k| k.0.clone()).collect();
+                    e.sort();
+                    e.into_iter().map(|x| a(&x)).collect()
+                }),
                 tagged("body", vec![body]),
             ],
         ));
